@@ -1,1 +1,119 @@
-From QS Require Import theories.Broker.
+(** C15 — Rejected operations change nothing.  Property theorems only. *)
+From Coq Require Import ZArith QArith String List.
+From QS Require Import theories.Num theories.Position theories.Portfolio theories.Fees theories.Exchange
+  theories.Broker theories.EntryBroker proofs.Noop.
+Import ListNotations.
+Open Scope Q_scope.
+
+(** Broker level, for EVERY state [b] (reachable or not — hence at every point of every
+    interleaving): any request other than a clock update that is refused leaves master cash,
+    every portfolio's cash, every position record (quantities, averages, commissions, price),
+    every pending-order queue and every history list exactly as they were, and records no
+    cash movement.  (Clocks are not in the property's list and are not part of [broker_obs].) *)
+Theorem rejected_is_noop :
+  forall bidask midp b o b' e ef,
+    (forall t, o <> Update t) ->
+    step bidask midp true b o = (b', Err e, ef) ->
+    broker_obs b' = broker_obs b /\ ef = [].
+Proof. exact step_rejected_noop. Qed.
+Print Assumptions rejected_is_noop.
+
+(** A clock update earlier than the clock of a portfolio that holds a position, or that has
+    a pending order the (open) exchange would fill, is refused with the whole state untouched
+    (Leibniz-equal, queues included) — the repaired behaviour. *)
+Theorem backwards_update_is_noop :
+  forall bidask midp b t pid ac,
+    In (pid, ac) (b_accts b) ->
+    (t < pf_dt (a_pf ac))%Z ->
+    (pf_pos (a_pf ac) <> [] \/ (is_open t = true /\ a_q ac <> [])) ->
+    step bidask midp true b (Update t) = (b, Err EarlyTimestamp, []).
+Proof. exact update_refused_when_early. Qed.
+Print Assumptions backwards_update_is_noop.
+
+(** ... and more generally whenever the up-front timestamp validation fails. *)
+Theorem update_validation_is_noop :
+  forall bidask midp b t,
+    forallb (fun pa => acct_clock_ok t (is_open t) (snd pa)) (b_accts b) = false ->
+    update bidask midp true b t = (b, Err EarlyTimestamp, []).
+Proof. exact update_refused_early. Qed.
+Print Assumptions update_validation_is_noop.
+
+(** Portfolio level (explicit timestamps), for every portfolio state: a refused subscription,
+    withdrawal or price mark, and a transaction refused for an early timestamp, change no
+    cash, position record or history entry. *)
+Theorem portfolio_rejected_is_noop :
+  forall pf o pf' e,
+    pstep pf o = (pf', Err e) ->
+    match o with
+    | PTxn _ => e = EarlyTimestamp /\
+                (t_dt (match o with PTxn tx => tx | _ => mkTxn "" 0 0 0 0 0 end) <? pf_dt pf)%Z = true
+    | _ => True
+    end ->
+    pf_obs pf' = pf_obs pf.
+Proof. exact pstep_rejected_noop. Qed.
+Print Assumptions portfolio_rejected_is_noop.
+
+(** Refusal table — both directions, so an invalid request is never silently accepted. *)
+Theorem refusal_subacct : forall bidask midp b a,
+  (exists b' e ef, step bidask midp true b (SubAcct a) = (b', Err e, ef)) <-> a < 0.
+Proof. exact subacct_refused. Qed.
+Print Assumptions refusal_subacct.
+Theorem refusal_wdacct : forall bidask midp b a,
+  (exists b' e ef, step bidask midp true b (WdAcct a) = (b', Err e, ef)) <-> (a < 0 \/ b_cash b < a).
+Proof. exact wdacct_refused. Qed.
+Print Assumptions refusal_wdacct.
+Theorem refusal_create : forall bidask midp b pid,
+  (exists b' e ef, step bidask midp true b (Create pid) = (b', Err e, ef)) <-> acct_find pid (b_accts b) <> None.
+Proof. exact create_refused. Qed.
+Print Assumptions refusal_create.
+Theorem refusal_submit : forall bidask midp b pid a q,
+  (exists b' e ef, step bidask midp true b (Submit pid a q) = (b', Err e, ef)) <-> acct_find pid (b_accts b) = None.
+Proof. exact submit_refused. Qed.
+Print Assumptions refusal_submit.
+Theorem refusal_subpf : forall bidask midp b pid a,
+  (exists b' e ef, step bidask midp true b (SubPf pid a) = (b', Err e, ef)) <->
+  (a < 0 \/ acct_find pid (b_accts b) = None \/ b_cash b < a \/
+   exists ac, acct_find pid (b_accts b) = Some ac /\ (b_dt b < pf_dt (a_pf ac))%Z).
+Proof. exact subpf_refused. Qed.
+Print Assumptions refusal_subpf.
+Theorem refusal_wdpf : forall bidask midp b pid a,
+  (exists b' e ef, step bidask midp true b (WdPf pid a) = (b', Err e, ef)) <->
+  (a < 0 \/ acct_find pid (b_accts b) = None \/
+   exists ac, acct_find pid (b_accts b) = Some ac /\ (pf_cash (a_pf ac) < a \/ (b_dt b < pf_dt (a_pf ac))%Z)).
+Proof. exact wdpf_refused. Qed.
+Print Assumptions refusal_wdpf.
+Theorem refusal_pf_subscribe : forall pf dt a,
+  (exists pf' e, pf_subscribe pf dt a = (pf', Err e)) <-> ((dt < pf_dt pf)%Z \/ a < 0).
+Proof. exact pf_subscribe_refused. Qed.
+Print Assumptions refusal_pf_subscribe.
+Theorem refusal_pf_withdraw : forall pf dt a,
+  (exists pf' e, pf_withdraw pf dt a = (pf', Err e)) <-> ((dt < pf_dt pf)%Z \/ a < 0 \/ pf_cash pf < a).
+Proof. exact pf_withdraw_refused. Qed.
+Print Assumptions refusal_pf_withdraw.
+Theorem refusal_pf_mark : forall pf a price dt p,
+  pos_find a (pf_pos pf) = Some p ->
+  (exists pf' e, pf_mark pf a price dt = (pf', Err e)) <->
+  (price < 0 \/ (dt < pf_dt pf)%Z \/ (dt < p_dt p)%Z \/ price <= 0).
+Proof. exact pf_mark_refused. Qed.
+Print Assumptions refusal_pf_mark.
+
+(** The pinned (pre-repair) [update] is kept in the model as [prevalidate = false]; on it the
+    property is false: a refused backwards update at an exchange-open time loses the queue. *)
+Definition w_quote (t : Z) (a : string) : option (Q * Q) := Some (10 # 1, 11 # 1).
+Definition w_mid (t : Z) (a : string) : option Q := Some (21 # 2).
+Definition w_state : broker :=
+  mkBr 1578416453 "USD" 0 ZeroFee
+       [("P1"%string, mkAcct (mkPf 1578416453 0 [] []) [mkOrd 0 "AAA" 148; mkOrd 1 "AAA" (-3)])] 2.
+Example update_backwards_refuted :
+  exists b' e ef, step w_quote w_mid false w_state (Update 1578415553) = (b', Err e, ef) /\
+                  listed e = true /\ broker_obs b' <> broker_obs w_state.
+Proof.
+  eexists. eexists. eexists. split; [vm_compute; reflexivity|]. split; [reflexivity|].
+  vm_compute. discriminate.
+Qed.
+Print Assumptions update_backwards_refuted.
+(** ... while the repaired one refuses it cleanly (non-vacuity of [backwards_update_is_noop]). *)
+Example update_backwards_repaired :
+  step w_quote w_mid true w_state (Update 1578415553) = (w_state, Err EarlyTimestamp, []).
+Proof. vm_compute. reflexivity. Qed.
+Print Assumptions update_backwards_repaired.
